@@ -161,3 +161,12 @@ Example ex_C12_float :
   | _, _ => False
   end.
 Proof. vm_compute. reflexivity. Qed.
+
+(** ---- tie to the source: the balance branches of api.matrix — which slices the weights come from (bias2 = bias1 only
+    for coinciding ranges), the reciprocal for divisive weights, and the ORDER of the float multiplications that the
+    binary64 model reproduces (dense: arr * outer(b1, b2); sparse and pixels: b1 * b2 * data) — and the divisive default of
+    Cooler.matrix are pinned in the source on every run (tools/py2v.py; the constant exists only if they are unchanged). *)
+From Cooler Require Import Gen.Translated.
+Theorem C12_source_pins : Gen.matrix_balance_pins = true.
+Proof. reflexivity. Qed.
+Print Assumptions C12_source_pins.
